@@ -43,6 +43,14 @@ Definition a0 : N -> bool := fun _ => false.
 Definition world_sum (P : wprog) (K : (N -> bool) -> Qc) : Qc :=
   bsum N.eqb (wp_wt P) (map fst (blocks P)) K a0.
 
+(* an executable model function: the candidate model of BoolGraph.sem under the assignment
+   restricted to the atoms of the graph (it IS the model whenever is_modelb accepts it on every
+   sublist of atoms, PipeProofs.model_by_enumeration) *)
+Definition model_of (F : graph) (a : N -> bool) : nat -> bool :=
+  vget (sem F (asg_of (filter a (atoms_of F)))).
+Definition model_checkb (F : graph) : bool :=
+  forallb (fun t => is_modelb F (asg_of t) (sem F (asg_of t))) (sublists (atoms_of F)).
+
 Definition holds (s : nat -> bool) (ks : list key) : bool := forallb (key_val s) ks.
 
 Inductive presult : Type := POk (p : Qc) | PInconsistent.
@@ -56,12 +64,12 @@ Definition world_prob (P : wprog) (M : (N -> bool) -> nat -> bool) (q : key) (e 
             (world_sum P (fun a => b2q (holds (M a) e))).
 
 (* ------------------------------------------------------------------ pipeline *)
-(* static atom information for the target builder of break_cycles: group index per member,
-   extra identifier per group *)
+(* static atom information for the target builder of break_cycles: group key per member and
+   extra identifier per group.  The group key is the extra identifier itself (ProbLog: the
+   (group, arguments) identity of the AD; the key is only used to index the builder's tables) *)
 Definition ai_of (P : wprog) : atom_info :=
-  let gs := combine (map N.of_nat (seq 0 (length (wp_groups P)))) (wp_groups P) in
-  {| ai_group := flat_map (fun ig => map (fun m => (m, (fst ig, false))) (fst (snd ig))) gs;
-     ai_extra_id := map (fun ig => (fst ig, snd (snd ig))) gs |}.
+  {| ai_group := flat_map (fun g => map (fun m => (m, (snd g, false))) (fst g)) (wp_groups P);
+     ai_extra_id := map (fun g => (snd g, snd g)) (wp_groups P) |}.
 
 Definition inD (D : graph) (id : N) : bool := existsb (N.eqb id) (atoms_of D).
 (* the members of a block that occur in the acyclic formula *)
